@@ -74,7 +74,8 @@ def run(spec, ctx):
         for _k in range(5):
             o = rand_sel(rng)
             variant = "".join(v for v in ("-r", "-e", "-x") if rng.random() < 0.35) or "plain"
-            check_dir(ctx, d, ents, o, variant, rng.choice(exts + [".nomatch"]), i, spec)
+            odd = [x[1:] for x in exts] + [x[-2:] for x in exts] + [".pel.bak", ".x.pel", "."]      # no dot / partial / multi-dot
+            check_dir(ctx, d, ents, o, variant, rng.choice(exts + [".nomatch"] + (odd if rng.random() < 0.3 else [])), i, spec)
         d.remove()
 
 
